@@ -366,8 +366,9 @@ def _run(ctx, quick, broken, exes, driver, tmp, gen_info, only_replay):
         groups[g] = dict(prog=p, kind="scenario", need=need, opt=opt, observes=observes)
         beh = scheds or ["never", "always", "p16"]
         weaky = "weak" in os.path.basename(p)      # every collection of a weak-container scenario goes through the model's weak pass
+        ringy = "wrapped" in os.path.basename(p)    # ... and every ring state of the wrapped-channel scenario through the regenerated loops
         symy = "symcache" in os.path.basename(p)   # ... and every collection of a symbol-cache scenario through the model's cache pass
-        jobs.append((g, Job(p, "plain", "never", graph=True, crit=True, dump=(1, 0, 12 if weaky else (8 if symy else 1)), stack_kb=stack)))
+        jobs.append((g, Job(p, "plain", "never", graph=True, crit=True, dump=(1, 0, 12 if (weaky or ringy) else (8 if symy else 1)), stack_kb=stack)))
         for s in beh[1:]:
             jobs.append((g, Job(p, "plain", s, seed=rng.next() % 10**9, graph=True,
                                 dump=(rng.range(2, 6), rng.below(6), 12) if weaky else ((rng.range(2, 9), rng.below(9), 3) if symy else (rng.range(2, 40), rng.below(40), 1)),
